@@ -65,7 +65,7 @@ Proof.
   - destruct (len bs <? c_pageSize); discriminate.
   - destruct (_ || _); [discriminate|].
     destruct (parse_meta _ _); [|discriminate].
-    unfold buckets. rewrite parse_buckets_ref.
+    rewrite parse_buckets_ref.
     destruct (pb_ref _ _ _ _ _ _) eqn:E; try discriminate. exfalso. revert E. apply pb_ref_total.
 Qed.
 
@@ -141,7 +141,7 @@ Section Sound.
     - destruct (len bs <? c_pageSize); discriminate.
     - rewrite hdr_np_val. fold hl. destruct (_ || _); [discriminate|].
       destruct (parse_meta _ _); [|discriminate].
-      unfold buckets. rewrite parse_buckets_ref. fold sz.
+      rewrite parse_buckets_ref. fold sz.
       destruct (pb_ref _ _ _ _ _ _) as [| |acc] eqn:E; try discriminate.
       intro X. injection X as _ <-. apply Forall_rev.
       eapply pb_ref_sound; [|constructor|exact E].
@@ -260,7 +260,7 @@ Section Faithful.
     destruct (N.ltb_spec 16384 hdr) as [|_]; [lia|]. cbn [orb].
     destruct (N.ltb_spec hdr 32) as [|_]; [lia|].
     rewrite <- Em. unfold meta_kv in Ek. rewrite parse_meta_lines, Ek. cbn [rev app].
-    unfold buckets. rewrite parse_buckets_ref. fold buckets.
+    rewrite parse_buckets_ref. change (range_from 0 (N.to_nat c_numHash)) with buckets.
     rewrite (pb_ref_table buckets tbl [] Ht).
     - rewrite walk_spec_clash. cbn [map]. destruct (twin_clash_from [] (concat tbl)); [reflexivity|].
       rewrite app_nil_r, rev_involutive. reflexivity.
@@ -335,7 +335,7 @@ Proof.
   intro H. unfold parse_with. cbv zeta.
   destruct (negb (has_prefix bs c_hdrPrefix) || (len bs <? c_pageSize)); [reflexivity|].
   destruct (_ || _); [reflexivity|]. destruct (parse_meta _ _); [|reflexivity].
-  unfold buckets. rewrite !parse_buckets_ref. fold buckets.
+  rewrite !parse_buckets_ref. change (range_from 0 (N.to_nat c_numHash)) with buckets.
   rewrite (pb_ref_indep o1 o2); [reflexivity|].
   intros i Hi. unfold oob_head in H. cbv zeta in H.
   apply negb_true_iff. destruct (_ && _) eqn:E; [|reflexivity]. exfalso.
